@@ -3,7 +3,7 @@
    DRModel.v instantiated with EncodeGen.v, which the check regenerates from the repository on
    every run (emitted instruction lists, gates.py blocks, the two fixed CZ angles). *)
 From Coq Require Import ZArith QArith List Bool Arith Ring Reals Qreals.
-From PV Require Import C19.DRBase C19.EncodeGen C19.DRModel C19.DRProofs C19.KLMProofs C19.RealInst.
+From PV Require Import C19.DRBase C19.EncodeGen C19.DRModel C19.RunInst C19.DRProofs C19.HomProofs C19.KLMProofs C19.RealInst C19.BoundProofs.
 Import ListNotations.
 Open Scope nat_scope.
 
@@ -23,22 +23,61 @@ Theorem C19_encode_gate_matrix_real : forall q g, encoded_gate_matrix Rops q g =
 Proof. exact (encode_gate_matrix Rops Rops_ring). Qed.
 Print Assumptions C19_encode_gate_matrix_real.
 
-(* 2 (partial). gate level and block level of the homomorphism: executing, in order, the
-   instructions emitted for gate g (resp. for a whole conditioned-block body) on the rails of
-   qubit q, on ANY n-qubit code state psi, is the qubit gate (resp. the gate sequence) on qubit q.
-   The program-level induction (measurements, outcome positions read by the conditions) is the
-   Definition encode_homomorphism_statement of DRProofs.v and is not proved. *)
-Theorem C19_encode_homomorphism_partial_gate : forall A (O : ops A), is_ring O -> forall q g,
+(* 2. The encoding is a homomorphism on the code space.
+   2a/2b: executing, in order, the instructions emitted for gate g (for a whole block body) on the
+   rails of qubit q, on ANY n-qubit code state psi, is the qubit gate (gate sequence) on qubit q. *)
+Theorem C19_encoded_gate_acts : forall A (O : ops A), is_ring O -> forall q g,
   exists l, instantiate O [2 * q; 2 * q + 1] (gsyms O g) (emitted_of g) = Some l /\
             forall psi, run_ops O l psi = Some (apply1 O q (gate_matrix O g) psi).
 Proof. exact (@encoded_gate_acts). Qed.
-Print Assumptions C19_encode_homomorphism_partial_gate.
+Print Assumptions C19_encoded_gate_acts.
 
-Theorem C19_encode_homomorphism_partial_block : forall A (O : ops A), is_ring O -> forall q body,
+Theorem C19_encoded_block_acts : forall A (O : ops A), is_ring O -> forall q body,
   exists l, encode_gates O q body = Some l /\
             forall psi, run_ops O l psi = Some (apply_gates O q body psi).
 Proof. exact (@encode_gates_acts). Qed.
-Print Assumptions C19_encode_homomorphism_partial_block.
+Print Assumptions C19_encoded_block_acts.
+
+(* 2c: program level, by induction over the instruction list: for every program of single-qubit
+   gates, measurements and conditioned blocks on any number of qubits, every list of measurement
+   answers, every state: the encoder succeeds and the photonic run of the encoded program (branch
+   outcome tuple as in api/simulator.py, conditions reading outcome positions 2k, 2k+1 through
+   get_bosonic_qubit_samples) equals the qubit run (classical bits, conditions on bit k).
+   Visible restriction wf_prog: the k-th measurement writes classical bit k and a block reads a bit
+   already written -- the input class of the open finding
+   C19:condition:reads-outcome-position-of-clbit-index is excluded; blocks with an else part or on
+   several qubits (the two if_else findings) are not expressible in qop. *)
+Theorem C19_encode_homomorphism_except_clbit_order : forall A (O : ops A), is_ring O ->
+  forall k1 k2 n p m idx, wf_prog m p ->
+  exists l, encode_body O k1 k2 n idx p = Some l /\
+    forall os outs cr psi, outs_inv m outs cr ->
+      run_p O l os outs psi = Some (run_q O p os cr psi).
+Proof. exact (@encode_homomorphism). Qed.
+Print Assumptions C19_encode_homomorphism_except_clbit_order.
+
+(* 2d: the outcome tuple (1,0)/(0,1) per measurement decodes to the qubit answers *)
+Theorem C19_outcomes_decode : forall o os,
+  get_bosonic_qubit_samples [enc_outcomes (o :: os)] = Some [o :: os].
+Proof. exact samples_enc_outcomes. Qed.
+Print Assumptions C19_outcomes_decode.
+
+(* 2e: cx.  The list emitted for cx is [h on the target] ++ [the list emitted for cz on the two
+   |1> rails with the same ancillas] ++ [h on the target] (all modes, all symbols); the h part acts
+   as H on the target on every code state; and H.CZ.H = CX on qubit states (2*hh*hh = 1). *)
+Theorem C19_encoded_cx_is_h_cz_h : forall A (O : ops A), is_ring O -> forall k1 k2 c t a0 a1,
+  exists lh lz,
+    instantiate O ([2 * c; 2 * c + 1; 2 * t; 2 * t + 1] ++ [a0; a1]) (ksyms k1 k2) emitted_cx = Some (lh ++ lz ++ lh) /\
+    instantiate O ([2 * c + 1; 2 * t + 1] ++ [a0; a1]) (ksyms k1 k2) emitted_cz = Some lz /\
+    (forall psi, run_ops O lh psi = Some (apply1 O t (gate_matrix O GH) psi)).
+Proof. exact (@encoded_cx_is_h_cz_h). Qed.
+Print Assumptions C19_encoded_cx_is_h_cz_h.
+
+Theorem C19_h_cz_h_is_cx : forall A (O : ops A), is_ring O ->
+  oadd O (omul O (ohh O) (ohh O)) (omul O (ohh O) (ohh O)) = o1 O ->
+  forall c t psi x, c <> t -> t < length x ->
+  apply1 O t (gate_matrix O GH) (apply_cz O c t (apply1 O t (gate_matrix O GH) psi)) x = apply_cx c t psi x.
+Proof. exact (@h_cz_h_is_cx). Qed.
+Print Assumptions C19_h_cz_h_is_cx.
 
 (* 3a. the CZ block emitted by _cz_on_two_bosonic_qubits, as a 4-mode network with the ancillas
        found in (1,1): its transition amplitudes (permanents) are these polynomials in the
@@ -59,6 +98,14 @@ Theorem C19_klm_cz_exact : forall c1 s1 c2 s2 r2 r3 r6 : R,
 Proof. exact klm_cz_exact. Qed.
 Print Assumptions C19_klm_cz_exact.
 
+(* non-vacuity of 3b: the premises are satisfied by real numbers (cos, sin of first-quadrant angles) *)
+Example C19_klm_exact_angles_exist : exists c1 s1 c2 s2 r2 r3 r6 : R,
+  (r2 * r2 = 2 /\ r3 * r3 = 3 /\ r6 = r2 * r3 /\
+  3 * (c1 * c1) = 1 /\ 3 * (s1 * s1) = 2 /\ 3 * (c1 * s1) = r2 /\
+  6 * (c2 * c2) = 3 + r6 /\ 6 * (s2 * s2) = 3 - r6 /\ 6 * (c2 * s2) = r3 /\
+  0 < c1 /\ 0 < s1 /\ 0 < c2 /\ 0 < s2)%R.
+Proof. exact klm_exact_angles_exist. Qed.
+
 (* 4. the angles the code uses (54.74 and 17.63 degrees): every amplitude within 1e-4 *)
 Theorem C19_klm_cz_rounded : forall x y a b, In (x, y, a, b) klm_cases ->
   exists p, klm_amp Rops (cos klm_th1) (sin klm_th1) (cos klm_th2) (sin klm_th2) x y a b = Some (p, 0%R)
@@ -78,3 +125,31 @@ Example C19_klm_cases : klm_cases =
 Proof. reflexivity. Qed.
 Example C19_klm_target_cz : (klm_target 1 1 1 1 = -1 /\ klm_target 0 1 0 1 = 1 /\ klm_target 0 1 1 0 = 0)%R.
 Proof. repeat split; reflexivity. Qed.
+
+(* 5 (partial). circuit level, first order, with its constant.  For every pseudo-metric space of
+   states and every list of steps: exact steps contractions, entangling steps within eps*N(u) of an
+   ideal kappa-Lipschitz map => after k entangling steps the states differ by at most
+   k*eps*(kappa+eps)^(k-1)*N(initial).  With kappa = sqrt 6/9, eps = sqrt 8/10000 (from theorem 4) this
+   is at most k*1.05e-3*kappa^k for k <= 10, and an amplitude error eta gives a probability error
+   at most 2 eta + eta^2.  Partial: that the simulator's Fock-space maps satisfy the premises is
+   not proved (C07/C08 unitarity; operator norm from the entrywise bound). *)
+Theorem C19_circuit_error_bound_partial :
+  forall (V : Type) (dist : V -> V -> R) (N : V -> R),
+  (forall u v w, dist u w <= dist u v + dist v w)%R -> (forall u v, 0 <= dist u v)%R ->
+  (forall u, dist u u = 0%R) -> (forall u, 0 <= N u)%R ->
+  forall kappa eps : R, (0 <= kappa)%R -> (0 <= eps)%R ->
+  forall (l : list (step V)) (u : V), Forall (step_ok V dist N kappa eps) l ->
+  (dist (run_real V l u) (run_ideal V l u) <= first_order kappa eps (n_ent V l) * N u)%R.
+Proof. exact circuit_error_bound. Qed.
+Print Assumptions C19_circuit_error_bound_partial.
+
+Theorem C19_klm_first_order_constant : forall k, 1 <= k <= 10 ->
+  (INR k * klm_eps * (klm_kappa + klm_eps) ^ (pred k) <= INR k * (105 / 100000) * klm_kappa ^ k)%R.
+Proof. exact klm_first_order_constant. Qed.
+Print Assumptions C19_klm_first_order_constant.
+
+Theorem C19_probability_from_amplitude : forall a b w eta : R,
+  (0 <= a -> 0 <= b -> b <= w -> 0 <= eta -> Rabs (a - b) <= eta * w ->
+   Rabs (a * a - b * b) <= (2 * eta + eta * eta) * (w * w))%R.
+Proof. exact probability_from_amplitude. Qed.
+Print Assumptions C19_probability_from_amplitude.
